@@ -36,7 +36,7 @@
 //        Validation: the family + every single renaming `identifier j := identifier i` and every first-letter case flip in 8 base files (about 2 000 files with
 //        0..4 simultaneous violations).
 //        LALR: the well-formed files of the family, of the enumeration (right-hand sides <= 1: all; <= 2: 1 in 97, thorough 1 in 3) and 12 textbook grammars
-//        (LALR-not-SLR, LR(1)-not-LALR, dangling else, expression grammars, nullable chains) + 2 500 pseudo-random files (40 000 thorough) over 2..4
+//        (LALR-not-SLR, LR(1)-not-LALR, dangling else, expression grammars, nullable chains) + 2 500 pseudo-random files (100 000 thorough) over 2..4
 //        nonterminals and 1..3 terminals with right-hand sides of 0..3 symbols (fixed LCG seeded with VERIF_SEED); the ill-formed ones are skipped.
 //        Emitted types: the accepted files of the family + 9 payload type expressions (unit, paths, generics nested <= 3) on 3 use sites + 11 attribute
 //        texts (non-ASCII, the three bracket kinds nested, 300 deep, quotes) on struct / enum / terminal declarations, 0..3 per declaration.
@@ -1373,7 +1373,7 @@ mod __vx_leafcheck {
         fam.extend(SHAPES.iter().map(|s| instantiate(s, &du, &dl)));
         fam.extend(enumerated(1, 1));
         fam.extend(enumerated(2, if thorough() { 3 } else { 97 }));
-        fam.extend(random_grammars(if thorough() { 40000 } else { 2500 }));
+        fam.extend(random_grammars(if thorough() { 100000 } else { 2500 }));
         fam.iter().map(|c| tokens(c)).collect()
     }
     /// pseudo-random files over nonterminals N0..N3 (any of them the start symbol; struct or enum of 0..3 variants; right-hand sides of 0..3 symbols as tuple or named fieldsets with used and `_` fields, biased
